@@ -53,6 +53,8 @@ def check(run):
     strs, longs = strings(run, L)
     U = vlib.universe(run)
     texts = [t for e in U for t, _ in U[e]]
+    import regexgen
+    for e in U: texts += regexgen.sample(vlib.REPO, e, rnd, 60 if quick else 400) + regexgen.sample(vlib.REPO, e, rnd, 30 if quick else 200, files=("range.go",))
     garb = garbage(rnd, texts, 1500 if quick else 20000)
     if quick:
         longs = [l for l in longs if l["n"] in (1000, 100000)]
